@@ -11,7 +11,7 @@ use serde_json::{json, Value};
 
 pub struct C11;
 
-pub const CORPUS: [(&str, &str); 12] = [
+pub const CORPUS: [(&str, &str); 13] = [
     ("macro.lef", include_str!("../../../corpus/lef/macro.lef")),
     ("snippet01", include_str!("../../../corpus/lef/snippet01.lef")),
     ("snippet02", include_str!("../../../corpus/lef/snippet02.lef")),
@@ -24,6 +24,7 @@ pub const CORPUS: [(&str, &str); 12] = [
     ("snippet09", include_str!("../../../corpus/lef/snippet09.lef")),
     ("snippet10", include_str!("../../../corpus/lef/snippet10.lef")),
     ("snippet11", include_str!("../../../corpus/lef/snippet11.lef")),
+    ("snippet12-nonascii-names", include_str!("../../../corpus/lef/snippet12.lef")),
 ];
 const INP: &str = "/sim/damaged.lef";
 const OUT: &str = "/sim/rewritten.lef";
@@ -113,6 +114,21 @@ fn token_faults(text: &str, toks: &[(usize, usize, TK)], i: usize) -> Vec<(Strin
             v.push((format!("tok{}:replace(long-name-{}+nonascii)", i, l), rep(&format!("{}{}", "a".repeat(l), NONASCII[l % 3]))));
         }
         v.push((format!("tok{}:replace(cjk-word)", i), rep("日本語日本語日本語日本語日本語")));
+    }
+    // a name that parts from its twin INSIDE a multi-byte character: the last non-ASCII character of the token is
+    // replaced by a neighbour that shares its leading byte(s) (e -> e', a CJK character -> the next code point)
+    if k == TK::Word {
+        if let Some((ci, c)) = text[s..e].char_indices().filter(|(_, c)| !c.is_ascii()).last() {
+            for d in [1u32, 2, 0x10] {
+                if let Some(c2) = char::from_u32(c as u32 ^ d) {
+                    if c2.len_utf8() == c.len_utf8() && !c2.is_whitespace() {
+                        let mut w = text[s..e].to_string();
+                        w.replace_range(ci..ci + c.len_utf8(), &c2.to_string());
+                        v.push((format!("tok{}:sibling-character(^{})", i, d), rep(&w)));
+                    }
+                }
+            }
+        }
     }
     // a non-ASCII comment line in front of this token (shifts every later position)
     v.push((format!("tok{}:nonascii-comment-before", i), format!("{}# {} \n{}", &text[..s], NONASCII[i % NONASCII.len()], &text[s..])));
